@@ -5,7 +5,7 @@ use serde_json::{json, Value};
 use vmodel::{
     engine::{Failure, ShardCtx, Verdict},
     refs::{is_help_request, quote_token, ref_classify, Key, RArg},
-    session::{Config, EnumSet, RawSet, Sess, Shorts, ShortsSet},
+    session::{Chars, CharsSet, Config, EnumSet, RawSet, Sess, Shorts, ShortsSet},
 };
 
 use super::{common::real_decode, Check, DEFAULT};
@@ -341,6 +341,27 @@ fn check_error_rendering(c: char) -> Result<(), (String, String)> {
     Ok(())
 }
 
+/// The scalar as the value of a `char` field of a derived command (positional, and behind an option when `both`)
+fn check_char_argument(c: char, both: bool) -> Result<(), (String, String)> {
+    let q = quote_token(&c.to_string(), false);
+    let mut lines = vec![(format!("chr {}", q), format!("{:?}", Chars::Chr { opt: None, c }))];
+    if both {
+        lines.push((format!("chr -o {} {}", q, q), format!("{:?}", Chars::Chr { opt: Some(c), c })));
+    }
+    for (line, want) in lines {
+        let v = vmodel::genrun::observe_line::<CharsSet>(&line);
+        let calls = v["calls"].as_array().cloned().unwrap_or_default();
+        let what = format!("derived command with a `char` field, line {:?}", line);
+        if v["error"].is_string() || calls.len() != 1 {
+            return Err((format!("{}: one dispatch", what), v.to_string()));
+        }
+        if calls[0]["typed"]["ok"].as_str() != Some(want.as_str()) {
+            return Err((format!("{}: parsed as {}", what, want), format!("{} / output {:?}", calls[0]["typed"], v["out"].as_str().unwrap_or(""))));
+        }
+    }
+    Ok(())
+}
+
 fn is_boundary(c: char) -> bool {
     let v = c as u32;
     matches!(v, 0x20..=0x22 | 0x2d | 0x5c | 0x68 | 0x7e | 0x80 | 0x7ff | 0x800 | 0xd7ff | 0xe000 | 0xfffd..=0x10001 | 0x10ffff)
@@ -364,6 +385,7 @@ fn full(c: char, with_cli: bool, all_ctx: bool, rot: usize) -> Result<(), (Strin
             }
         }
         check_error_rendering(c)?;
+        check_char_argument(c, all_ctx || is_boundary(c))?;
     }
     Ok(())
 }
